@@ -2,7 +2,21 @@
     The byte codecs enter as tables computed by the harness with the real functions
     (bincode for records and snapshots, crc32fast for checksums). *)
 From GV Require Export Wal.Classes.
+From Coq Require Export Uint63.
 Open Scope Z_scope.
+
+(** byte strings arrive packed, seven bytes per 63-bit literal (little endian): a plain
+    [list Z] literal costs the elaborator ~0.6 ms per byte *)
+Definition pk_byte (x : int) (j : int) : Z := Uint63.to_Z (Uint63.land (Uint63.lsr x (8 * j)) 255).
+Definition pk_word (n : nat) (x : int) : list Z :=
+  firstn n [pk_byte x 0; pk_byte x 1; pk_byte x 2; pk_byte x 3; pk_byte x 4; pk_byte x 5; pk_byte x 6]%uint63.
+Fixpoint pk_go (len : nat) (l : list int) : list Z :=
+  match l with
+  | [] => []
+  | x :: r => pk_word len x ++ pk_go (len - 7) r
+  end.
+Definition pk (len : Z) (l : list int) : list Z := pk_go (Z.to_nat len) l.
+Arguments pk len%Z l%uint63.
 
 (** * Codec tables *)
 Record tabs := mkTabs {
@@ -171,7 +185,9 @@ Definition chk_copy (m : store) (o : cobs) : bool :=
   end.
 (** [src_cur]/[src_lat]: dumps of the source after all copies were taken (source unchanged);
     [sn]: the exported bytes decoded by the harness; [imp], [mem], [sav]: import of the exported
-    bytes, to_memory(), save()+open() *)
+    bytes, to_memory(), save()+open().  save() enumerates the source exactly as export does (hash-map
+    order, not modelled), so the model saves the store rebuilt from the observed enumeration [sn],
+    which [snap_eqb] ties to the model's own snapshot as a set *)
 Definition chk_snap (t : tabs) (cfg : wcfg) (os : list op) (src_cur src_lat : gdump) (sn : snapshot)
            (imp mem : cobs) (sav : cobs) : bool :=
   let s := fst (run_store os) in
@@ -179,7 +195,7 @@ Definition chk_snap (t : tabs) (cfg : wcfg) (os : list op) (src_cur src_lat : gd
   && snap_eqb (snapshot_of s) sn
   && chk_copy (build sn) imp
   && chk_copy (to_memory s) mem
-  && match save_open (tcrc t) (tenc t) (tdec t) cfg s, sav with
+  && match save_open (tcrc t) (tenc t) (tdec t) cfg (build sn), sav with
      | ROk m, COk _ _ _ _ => chk_copy m sav
      | RErr, CErr => true
      | _, _ => false
@@ -190,6 +206,7 @@ Definition kc07_1 (os : list op) : bool := k07_1 (fst (run_store os)).
 Definition chk_import (d : option (snapshot * nat)) (o : cobs) : bool :=
   match import (fun _ => d) [] , o with
   | IErr, CErr => true
+  | IPanic, CPanic => true
   | IOk m, COk _ _ _ _ => chk_copy m o
   | _, _ => false
   end.
